@@ -2,8 +2,8 @@
    Model: Model/Inherit.v (avail = HierarchyElement._compute_available_objects).
    [avail f H] is the view of the parents (one fuel step less); the theorems hold
    for every hierarchy H, every layer and every fuel, i.e. whatever the parents are. *)
-From Coq Require Import ZArith List Bool.
-From OV Require Import Base.Wire Generated Model.Inherit Proofs.InheritProofs Proofs.PriorityProofs.
+From Coq Require Import ZArith List Bool Sorting.Permutation Sorting.Sorted.
+From OV Require Import Base.Wire Generated Model.Inherit Proofs.InheritProofs Proofs.PriorityProofs Proofs.ConflictProofs Proofs.ComparamProofs Proofs.SortProofs.
 Import ListNotations.
 Open Scope Z_scope.
 
@@ -82,3 +82,34 @@ Theorem C09_priority_example :
   avail 5 H (mkLayer 2 TEcuVariant [mkPref 1 []; mkPref 0 []] []) = IOk [mkObj 1 0].
 Proof. exact priority_example. Qed.
 Print Assumptions C09_priority_example.
+
+(* WHEN a conflict is reported: only when it is real. Either the view of a parent is in conflict already,
+   or two parent references expose (after exclusion) two different objects under one name which the
+   layer does not define itself, through parents of the same priority. Together with the theorem above:
+   a conflict is reported if and only if no admissible choice exists. *)
+Theorem C09_conflict_only_when_real : forall f H L,
+  avail (S f) H L = IConflict ->
+  (exists p PL, In p (l_parents L) /\ find_layer (p_target p) H = Some PL /\ avail f H PL = IConflict) \/
+  (exists p PL objs o p' PL' objs' o',
+      In p (l_parents L) /\ find_layer (p_target p) H = Some PL /\ avail f H PL = IOk objs /\
+      In o objs /\ memZ (o_name o) (p_excl p) = false /\
+      In p' (l_parents L) /\ find_layer (p_target p') H = Some PL' /\ avail f H PL' = IOk objs' /\
+      In o' objs' /\ memZ (o_name o') (p_excl p') = false /\
+      o_name o = o_name o' /\ obj_eqb o o' = false /\
+      layer_prio H (l_id PL) = layer_prio H (l_id PL') /\
+      ~ In (o_name o) (l_locals L)).
+Proof. exact conflict_is_real. Qed.
+Print Assumptions C09_conflict_only_when_real.
+
+(* the model's fuel (recursion depth) runs out only below a layer, never in the merge itself *)
+Theorem C09_fuel_only_from_parents : forall f H L,
+  avail (S f) H L = IFuel ->
+  exists p PL, In p (l_parents L) /\ find_layer (p_target p) H = Some PL /\ avail f H PL = IFuel.
+Proof. exact fuel_only_from_parents. Qed.
+Print Assumptions C09_fuel_only_from_parents.
+
+(* the parents are merged in descending order of priority, whatever the order of the PARENT-REFs *)
+Theorem C09_parents_in_priority_order : forall H l,
+  Permutation (sort_desc H l) l /\ StronglySorted (fun a b => prk H b <= prk H a) (sort_desc H l).
+Proof. intros H l. split; [apply sort_desc_perm | apply sort_desc_sorted]. Qed.
+Print Assumptions C09_parents_in_priority_order.
